@@ -911,6 +911,17 @@ theorem agrees : ∀ e : SE, closed e = true → boolFree e = true → wellTyped
     obtain ⟨ha, hkn, _, hv⟩ := ih hc hb ht.2 hk
     refine ⟨by simpa [static] using ha, by simpa [static] using hkn, fun h => by simp [isVec] at h, fun _ => ?_⟩
     simpa [static, eval] using hv ht.1
+  | agg keeps e ih =>
+    intro hc hb ht hk
+    simp only [closed] at hc
+    simp only [boolFree] at hb
+    simp only [wellTyped, Bool.and_eq_true] at ht
+    simp only [valueKeeping, Bool.and_eq_true] at hk
+    obtain ⟨hkeeps, hk⟩ := hk
+    subst hkeeps
+    obtain ⟨ha, hkn, _, hv⟩ := ih hc hb ht.2 hk
+    refine ⟨by simpa [static] using ha, by simpa [static] using hkn, fun h => by simp [isVec] at h, fun _ => ?_⟩
+    simpa [static, eval] using hv ht.1
   | vector e ih =>
     intro hc hb ht hvk
     simp only [valueKeeping] at hvk
@@ -998,6 +1009,13 @@ theorem static_stale_through_join_not_sound :
     (static (.bin .gt false (.fn false (.vector (.num (-1)))) (.num 0))).dead = false ∧
     ∃ e : SE, closed e = true ∧ boolFree e = true ∧ wellTyped e = true ∧ (static e).dead = true ∧ eval e = .v (some 3) :=
   ⟨by decide, .bin .gt false (.bin .add false (.vector (.num 2)) (.fn false (.vector (.num (-1))))) (.num 2), by decide⟩
+
+/-- aggregations keep the number known for their input whatever they do to the value: `count(vector(0)) > 0` is folded
+to `0 > 0` and declared dead although it returns 1 - the recorded finding `C12-static-aggregated` (pinned by the
+existing tests) at the level of the model -/
+theorem static_aggregated_not_sound :
+    ∃ e : SE, closed e = true ∧ boolFree e = true ∧ wellTyped e = true ∧ (static e).dead = true ∧ eval e = .v (some 1) :=
+  ⟨.bin .gt false (.agg false (.vector (.num 0))) (.num 0), by decide⟩
 
 /-- non-vacuity: `vector(1) > 2` is declared dead, `(vector(3) > 2) + 1` is not and is known to return 4 -/
 example :
